@@ -45,6 +45,10 @@ pub enum Kind {
     Binary,
     Ping,
     Pong,
+    /// the receiver-to-be first sends `queued` small messages that stay unread; then the sender `feed`s one
+    /// large message (queued in the stream, not flushed) and reads the small ones while its own flush is
+    /// still in progress; the peer reads the large one at the same time
+    Burst,
 }
 
 #[derive(Debug, Clone, Serialize, Deserialize)]
@@ -53,6 +57,9 @@ pub struct Step {
     pub kind: Kind,
     /// raw draw, mapped into 0..=102400 for data and 0..=125 for control frames (skewed to small)
     pub len: u16,
+    /// `Burst` only: raw draw -> 1..=8 small messages waiting for the sender of the large one
+    #[serde(default)]
+    pub queued: u8,
 }
 
 #[derive(Debug, Clone, Copy, Serialize, Deserialize)]
@@ -79,23 +86,29 @@ pub struct WsCase {
     pub tiny_sndbuf: [bool; 2],
     /// proxy schedule client->server and server->client, cyclic for the first 256 forwards of a direction
     pub proxy: [Vec<PEv>; 2],
+    /// bytes the proxy buffers per direction before it stops reading from the sender (back-pressure):
+    /// 0 = 4 MiB, otherwise mapped into 4 KiB..=128 KiB and the proxy's own sockets get the minimum SO_SNDBUF
+    #[serde(default)]
+    pub proxy_cap: [u16; 2],
     pub steps: Vec<Step>,
     pub client_closes: bool,
     pub close_with_frame: bool,
 }
 
 pub fn strategy() -> impl Strategy<Value = WsCase> + Clone {
-    let kind = prop_oneof![3 => Just(Kind::Text), 3 => Just(Kind::Binary), 3 => Just(Kind::Ping), 1 => Just(Kind::Pong)];
-    let step = (any::<bool>(), kind, any::<u16>()).prop_map(|(from_client, kind, len)| Step { from_client, kind, len });
+    let kind = prop_oneof![3 => Just(Kind::Text), 3 => Just(Kind::Binary), 3 => Just(Kind::Ping), 1 => Just(Kind::Pong), 2 => Just(Kind::Burst)];
+    let step = (any::<bool>(), kind, any::<u16>(), any::<u8>()).prop_map(|(from_client, kind, len, queued)| Step { from_client, kind, len, queued });
+    let cap = || prop_oneof![1 => Just(0u16), 2 => 1u16..=65535];
     let pev = (prop_oneof![2 => 1u16..8, 3 => 8u16..512, 3 => 512u16..8192, 2 => 8192u16..=65535], prop_oneof![3 => Just(0u16), 2 => 1u16..300, 1 => 300u16..3000])
         .prop_map(|(chunk, stall_us)| PEv { chunk, stall_us });
     let tls = prop_oneof![2 => Just(WsTls::Plain), 1 => Just(WsTls::Native), 1 => Just(WsTls::Rustls)];
-    (any::<bool>(), tls, any::<[bool; 2]>(), vec(pev.clone(), 0..6), vec(pev, 0..6), vec(step, 0..8), any::<bool>(), any::<bool>())
-        .prop_map(|(iour, tls, tiny_sndbuf, p0, p1, steps, client_closes, close_with_frame)| WsCase {
+    (any::<bool>(), tls, any::<[bool; 2]>(), vec(pev.clone(), 0..6), vec(pev, 0..6), (cap(), cap()), vec(step, 0..8), any::<bool>(), any::<bool>())
+        .prop_map(|(iour, tls, tiny_sndbuf, p0, p1, (c0, c1), steps, client_closes, close_with_frame)| WsCase {
             iour,
             tls,
             tiny_sndbuf,
             proxy: [p0, p1],
+            proxy_cap: [c0, c1],
             steps,
             client_closes,
             close_with_frame,
@@ -107,6 +120,8 @@ impl Step {
     pub fn len(&self) -> usize {
         match self.kind {
             Kind::Ping | Kind::Pong => mono_range(self.len, 0, 125),
+            // larger than what the socket buffers and the proxy take at once
+            Kind::Burst => mono_range(self.len, 48 * 1024, 384 * 1024),
             // skew: three quarters of the draws stay below 2 KiB, the rest go up to 100 KiB
             _ => {
                 if self.len < 49152 {
@@ -125,10 +140,34 @@ impl Step {
                 let s: String = (0..n).map(|i| (b'a' + ((i * 7 + ix * 3) % 26) as u8) as char).collect();
                 Message::Text(s.into())
             }
-            Kind::Binary => Message::Binary(bytes(ix, n).into()),
+            Kind::Binary | Kind::Burst => Message::Binary(bytes(ix, n).into()),
             Kind::Ping => Message::Ping(bytes(ix, n).into()),
             Kind::Pong => Message::Pong(bytes(ix, n).into()),
         }
+    }
+}
+
+impl Step {
+    fn queued(&self) -> usize {
+        mono_range(self.queued as u16 * 257, 1, 8)
+    }
+
+    /// the j-th small message waiting for the sender of a `Burst`
+    fn small(&self, ix: usize, j: usize) -> Message {
+        let n = (ix * 31 + j * 37 + self.queued as usize) % 180;
+        if j % 2 == 0 {
+            Message::Text((0..n).map(|i| (b'A' + ((i + j * 5 + ix) % 26) as u8) as char).collect::<String>().into())
+        } else {
+            Message::Binary(bytes(ix * 16 + j + 1, n).into())
+        }
+    }
+}
+
+pub fn proxy_cap_bytes(raw: u16) -> usize {
+    if raw == 0 {
+        4 << 20
+    } else {
+        mono_range(raw, 4096, 128 * 1024)
     }
 }
 
@@ -157,7 +196,7 @@ struct ProxyStats {
 
 impl Proxy {
     /// `a` faces the client, `b` faces the server.
-    fn start(a: Socket, b: Socket, sched: [Vec<PEv>; 2]) -> std::io::Result<Proxy> {
+    fn start(a: Socket, b: Socket, sched: [Vec<PEv>; 2], cap: [usize; 2]) -> std::io::Result<Proxy> {
         a.set_nonblocking(true)?;
         b.set_nonblocking(true)?;
         let (wake_tx, wake_rx) = std::os::unix::net::UnixStream::pair()?;
@@ -165,7 +204,7 @@ impl Proxy {
         let stop = Arc::new(AtomicBool::new(false));
         let no_stall = Arc::new(AtomicBool::new(false));
         let (stop2, no_stall2) = (stop.clone(), no_stall.clone());
-        let handle = std::thread::Builder::new().name("c15-ws-proxy".into()).spawn(move || proxy_loop(a, b, wake_rx, sched, stop2, no_stall2))?;
+        let handle = std::thread::Builder::new().name("c15-ws-proxy".into()).spawn(move || proxy_loop(a, b, wake_rx, sched, cap, stop2, no_stall2))?;
         Ok(Proxy { stop, no_stall, wake: wake_tx, handle: Some(handle) })
     }
 
@@ -181,7 +220,7 @@ impl Proxy {
     }
 }
 
-fn proxy_loop(a: Socket, b: Socket, mut wake: std::os::unix::net::UnixStream, sched: [Vec<PEv>; 2], stop: Arc<AtomicBool>, no_stall: Arc<AtomicBool>) -> ProxyStats {
+fn proxy_loop(a: Socket, b: Socket, mut wake: std::os::unix::net::UnixStream, sched: [Vec<PEv>; 2], cap: [usize; 2], stop: Arc<AtomicBool>, no_stall: Arc<AtomicBool>) -> ProxyStats {
     use std::{collections::VecDeque, time::Instant};
     let socks = [a, b]; // direction d: read socks[d], write socks[1-d]
     let mut q: [VecDeque<u8>; 2] = [VecDeque::new(), VecDeque::new()];
@@ -204,7 +243,7 @@ fn proxy_loop(a: Socket, b: Socket, mut wake: std::os::unix::net::UnixStream, sc
         ];
         let mut timeout_ms: i32 = 200;
         for d in 0..2 {
-            if !eof[d] && q[d].len() < (4 << 20) {
+            if !eof[d] && q[d].len() < cap[d] {
                 fds[d].events |= libc::POLLIN;
             }
             if !q[d].is_empty() {
@@ -328,15 +367,50 @@ struct Progress {
     stage: Cell<&'static str>,
 }
 
+/// a definite violation wins over a watchdog
+fn both(a: Result<(), StepErr>, b: Result<(), StepErr>) -> Result<(), StepErr> {
+    match (a, b) {
+        (Err(e @ StepErr::Bad(..)), _) | (_, Err(e @ StepErr::Bad(..))) => Err(e),
+        (Err(e), _) | (_, Err(e)) => Err(e),
+        _ => Ok(()),
+    }
+}
+
 async fn conversation(case: &WsCase, c: &mut Ws, s: &mut Ws, pr: &Progress) -> Result<(), StepErr> {
     for (i, st) in case.steps.iter().enumerate() {
         pr.step.set(i);
         let m = st.message(i);
         let (x, y) = if st.from_client { (&mut *c, &mut *s) } else { (&mut *s, &mut *c) };
-        pr.stage.set("send");
-        guarded("send", WATCHDOG, x.send(m.clone())).await?.map_err(|e| ws_err("send", e))?;
-        pr.stage.set("read");
-        expect(y, "read", &m).await?;
+        if st.kind == Kind::Burst {
+            let q = st.queued();
+            // y's small messages fit into the socket buffers: they wait there, x is not reading yet
+            pr.stage.set("burst-queue");
+            for j in 0..q {
+                guarded("burst-queue", WATCHDOG, y.send(st.small(i, j))).await?.map_err(|e| ws_err("burst-queue", e))?;
+            }
+            // queued inside x's stream, not flushed
+            pr.stage.set("burst-feed");
+            guarded("burst-feed", WATCHDOG, futures_util::SinkExt::feed(&mut *x, m.clone())).await?.map_err(|e| ws_err("burst-feed", e))?;
+            // x reads what is waiting for it while its own large message is still being flushed (every read
+            // has to flush first); y reads the large message at the same time
+            pr.stage.set("burst-read");
+            let xr = async {
+                for j in 0..q {
+                    expect(x, "burst-read", &st.small(i, j)).await?;
+                }
+                guarded("burst-flush", WATCHDOG, x.flush()).await?.map_err(|e| ws_err("burst-flush", e))
+            };
+            let yr = expect(y, "burst-big-read", &m);
+            let (a, b) = futures_util::future::join(xr, yr).await;
+            both(a, b)?;
+            continue;
+        }
+        // send and read at the same time: the path between the two holds less than a large message
+        pr.stage.set("send+read");
+        let snd = async { guarded("send", WATCHDOG, x.send(m.clone())).await?.map_err(|e| ws_err("send", e)) };
+        let rcv = expect(y, "read", &m);
+        let (a, b) = futures_util::future::join(snd, rcv).await;
+        both(a, b)?;
         if let Message::Ping(p) = &m {
             // the receiver's stream yielded the ping; the reply must already be on its way although the
             // receiver does not touch its stream again (compio-ws flushes before yielding an item)
@@ -420,7 +494,15 @@ pub fn run(case: &WsCase, verif_dir: &std::path::Path) -> Outcome {
             }
         }
     }
-    let proxy = match Proxy::start(pa, pb_, sched) {
+    let cap = [proxy_cap_bytes(case.proxy_cap[0]), proxy_cap_bytes(case.proxy_cap[1])];
+    // direction 0 (client -> server) leaves the proxy through `pb_`, direction 1 through `pa`
+    if case.proxy_cap[0] != 0 {
+        tiny(&pb_);
+    }
+    if case.proxy_cap[1] != 0 {
+        tiny(&pa);
+    }
+    let proxy = match Proxy::start(pa, pb_, sched, cap) {
         Ok(p) => p,
         Err(e) => return Outcome::inconclusive(format!("proxy: {e}")),
     };
@@ -481,8 +563,8 @@ pub fn run(case: &WsCase, verif_dir: &std::path::Path) -> Outcome {
                     let from_client = pr.step.get() < case.steps.len() && case.steps[pr.step.get()].from_client;
                     let closing = pr.step.get() >= case.steps.len();
                     let reader_is_client = match what {
-                        "read" | "read-close" => if closing { !case.client_closes } else { !from_client },
-                        "read-pong" | "read-close-ack" => if closing { case.client_closes } else { from_client },
+                        "read" | "read-close" | "burst-big-read" => if closing { !case.client_closes } else { !from_client },
+                        "read-pong" | "read-close-ack" | "burst-read" => if closing { case.client_closes } else { from_client },
                         _ => return false,
                     };
                     let rd = if reader_is_client { &mut c } else { &mut s };
@@ -517,6 +599,12 @@ pub fn run(case: &WsCase, verif_dir: &std::path::Path) -> Outcome {
             }
             if pings > 0 {
                 labels.push("ping-pong".into());
+            }
+            if case.steps.iter().any(|s| s.kind == Kind::Burst) {
+                labels.push("burst:read-while-own-flush-pending".into());
+            }
+            if case.proxy_cap[0] != 0 || case.proxy_cap[1] != 0 {
+                labels.push("proxy-back-pressure-cap".into());
             }
             if case.tiny_sndbuf[0] || case.tiny_sndbuf[1] {
                 labels.push("tiny-sndbuf".into());
